@@ -322,9 +322,71 @@ def _c17_getstate_while_first_render():
     return None
 
 
+_C08_STACK_SCRIPT = r"""
+import sys, traceback
+sys.setrecursionlimit(20000)        # as under Zope: the engine's own guard (200 template calls) is meant to be what stops recursion
+from DocumentTemplate import HTML
+from DocumentTemplate._DocumentTemplate import TemplateDict
+k = int(sys.argv[1])
+
+
+class Pad:
+    # k nested calls through the C-level call slot before the template is called: shifts where the interpreter's stack ends
+    def __init__(self, k, f):
+        self.k, self.f = k, f
+
+    def __call__(self):
+        return self.f() if self.k == 0 else Pad(self.k - 1, self.f)()
+
+
+t = HTML('<dtml-let a=x><dtml-let b=r>l</dtml-let></dtml-let>')       # r is t itself: unbounded recursion
+md = TemplateDict()
+md.guarded_getattr = md.guarded_getitem = None
+md._push({'r': t, 'x': 1})
+
+
+def go():
+    try:
+        t(None, md)
+    except RecursionError as e:
+        tb = traceback.extract_tb(e.__traceback__)
+        return 'RecursionError raised last at ' + ' <- '.join('%s:%d' % (f.name, f.lineno) for f in reversed(tb[-2:]))
+    except SystemError:
+        return 'SystemError (the guard)'
+    return 'returned'
+
+
+out = Pad(k, go)()
+print('%d|%d|%s' % (len(md._data), md.level, out))
+"""
+
+
+def _c08_stack_exhaustion():
+    """a fresh interpreter per run (after warm-up CPython's specialised attribute access needs no C stack for md._pop): a
+    Python caller pushes one frame, calls a template that recurses without bound through two nested dtml-let, catches the
+    RecursionError and counts the frames"""
+    import subprocess
+    import sys
+    for k in range(6):
+        p = subprocess.run([sys.executable, '-c', _C08_STACK_SCRIPT, str(k)], stdout=subprocess.PIPE, stderr=subprocess.PIPE,
+                           text=True, timeout=120)
+        line = p.stdout.strip().split('\n')[-1] if p.stdout.strip() else ''
+        parts = line.split('|', 2)
+        if len(parts) != 3:
+            continue
+        frames, level, out = int(parts[0]), int(parts[1]), parts[2]
+        if frames != 1 or level != 0:
+            return {'input': "t = HTML('<dtml-let a=x><dtml-let b=r>l</dtml-let></dtml-let>'); md = TemplateDict(); "
+                             "md._push({'r': t, 'x': 1}); t(None, md) inside try/except RecursionError, entered through %d "
+                             "nested __call__ slots, in a fresh interpreter" % k,
+                    'frames_before': 1, 'frames_after': frames, 'level_before': 0, 'level_after': level, 'outcome': out}
+    return None
+
+
 PROBES = {
     'C04': [('C04-requote-list-format', _c04_requote_list_format)],
     'C17': [('C17-getstate-while-first-render', _c17_getstate_while_first_render)],
+    'C08': [('C08-interpreter-stack-exhaustion-cleanup', _c08_stack_exhaustion)],
     'C13': [('C13-locale-none', _c13_locale_none)],
     'C05': [('C05-tree-sort-key', _c05_tree_sort_key), ('C05-tree-id', _c05_tree_id),
             ('C05-tree-expand-all', _c05_tree_expand_all), ('C05-var-url', _c05_var_url),
